@@ -200,6 +200,8 @@ def decode_bech32(s):
 
     data = [BECH32_ALPHABET.index(c) for c in raw_data]
     version = data[0]
+    if version > 16:
+        raise ValueError(f"witness version out of range: {version}")
     verify_fnc = bech32_verify_checksum if version == 0 else bech32m_verify_checksum
     if not verify_fnc(hrp, data):
         raise ValueError(f"bad address: {s}")
